@@ -1,7 +1,7 @@
 """C03 - CTL* model checking is exact for arbitrary quantifier/path-operator nesting."""
 from .. import core, fm, km, mc, ref
 from ..core import Failure
-from .c01 import minimise, NAMINGS
+from .c01 import minimise, NAMINGS, scope_iter
 
 FORMS = ['obj', 'text', 'str']
 
@@ -102,11 +102,11 @@ def enum_shard(st, shard, nshards, payload):
         objs = [fm.to_lib(f, L) for f in forms]
         rts = [sorted(routes(f)) for f in forms]
         nts = [is_nontrivial(f) for f in forms]
-        for K in km.scope(n):
+        for K in scope_iter(n, stride, nshards):
             idx += 1
             if idx % nshards != shard:
                 continue
-            if stride > 1 and (idx // nshards) % stride != 0:
+            if n < 4 and stride > 1 and (idx // nshards) % stride != 0:
                 continue
             M = ref.Model(K)
             naming = NAMINGS[idx % len(NAMINGS)]
@@ -155,14 +155,16 @@ def run(ctx):
                 'CTL-shaped or quantifier nesting >= 2).  Route histogram in classes.')
     if ctx.thorough:
         scopes = [(1, 'Qg-k2', 1), (2, 'Qg-k2', 1), (1, 'nest2', 1), (2, 'nest2', 1),
-                  (2, 'bool2', 1), (3, 'Qg-k1', 16), (3, 'nest2', 64)]
+                  (2, 'bool2', 1), (3, 'Qg-k1', 16), (3, 'nest2', 64), (4, 'Qg-k1', 8009)]
         ctx.scopes = ['S(1)+S(2) x Qg-k2 (8648 formulas)', 'S(1)+S(2) x nest2', 'S(2) x bool2',
-                      'every 16th of S(3) x Qg-k1', 'every 64th of S(3) x nest2']
+                      'every 16th of S(3) x Qg-k1', 'every 64th of S(3) x nest2',
+                      'every 8009th of S(4) x Qg-k1']
     else:
         scopes = [(1, 'Qg-k2', 1), (2, 'Qg-k1', 1), (2, 'Qg-k2', 24), (1, 'nest2', 1),
-                  (2, 'nest2', 12), (2, 'bool2', 6)]
+                  (2, 'nest2', 12), (2, 'bool2', 6), (3, 'Qg-k1', 331), (4, 'Qg-k1', 120011)]
         ctx.scopes = ['S(1) x Qg-k2', 'S(2) x Qg-k1', 'every 24th of S(2) x Qg-k2', 'S(1) x nest2',
-                      'every 12th of S(2) x nest2', 'every 6th of S(2) x bool2']
+                      'every 12th of S(2) x nest2', 'every 6th of S(2) x bool2',
+                      'every 331st of S(3) and every 120011th of S(4) x Qg-k1']
     ctx.exhaustive = True
     ctx.assumptions = ['reference semantics vp/ref.py (R-STAR) is the trusted base',
                        'atoms are p,q: exactness under atom names that collide with the '
